@@ -166,8 +166,8 @@ def h2_frames(p: int, op: int, n: int, a: int, b: int, c: int) -> None:
 
 @harness("C15", "connect_replies",
          quick=[{"flavour": fl, "mode": md} for fl in ("sync", "async") for md in ("mutate", "scratch")],
-         bounds="valid conversation: '200 Connection established' reply to CONNECT (~40 bytes); one mutation",
-         **COMMON)
+         bounds="valid conversation: '200 Connection established' reply to CONNECT (~40 bytes); one mutation; the proxy closes after its reply, so the request itself always ends in an error",
+         **dict(COMMON, require=("raised",)))
 def connect_replies(p: int, op: int, n: int, a: int, b: int, c: int) -> None:
     """
     pre: 0 <= p <= 60 and 0 <= op <= 12 and 0 <= n <= 3 and 0 <= a <= 5 and 0 <= b <= 5 and 0 <= c <= 5
